@@ -515,6 +515,30 @@ func genMemStream(p *params, emit func(string, bool)) {
 	emit("mst s.1.1 s.1.2 s.1.3 n.1.1.1.0 r.1 a.1 a.1 r.1 a.1 r.1", true)
 	emit("mco 3 n.1.0.1.0 r.1 n.2.0.1.0 r.2 a.2 a.1 r.2 a.2 r.2", true)
 	emit("mco 3 n.1.0.1.0 r.1 a.1 a.1 r.1 a.1 r.1", true)
+	// reading is not storing (single topic): a receiver WITHOUT the option reads under a name — an event it never acknowledges,
+	// or an empty stream —, then a receiver of the same name WITH StreamFromLatest is made: the name still has no stored position
+	emit("mst s.1.1 s.1.2 n.1.1.1.0 r.1 n.2.1.1.1 s.1.3 r.2 a.2 r.2", true)
+	emit("mst n.1.1.1.0 r.1 s.1.1 n.2.1.1.1 s.1.2 r.2 a.2 r.2", true)
+	emit("mst s.1.1 n.1.1.1.0 r.1 r.1 n.2.1.1.1 s.1.3 r.2 n.3.1.1.0 r.3", true)
+	// single-topic sequences with the option chosen freely per receiver (C19_refines_single_topic)
+	for i := 0; i < p.pick(150, 4000); i++ {
+		var ops []string
+		nh := 0
+		for j := 0; j < 4+r.Intn(20); j++ {
+			switch k := r.Intn(10); {
+			case k < 3:
+				ops = append(ops, fmt.Sprintf("s.1.%d", r.Intn(90)))
+			case k < 5:
+				nh++
+				ops = append(ops, fmt.Sprintf("n.%d.1.%d.%d.%d", nh, 1+r.Intn(2), r.Intn(2), r.Intn(3)))
+			case k < 8:
+				ops = append(ops, fmt.Sprintf("r.%d", 1+r.Intn(nh+1)))
+			default:
+				ops = append(ops, fmt.Sprintf("a.%d", 1+r.Intn(nh+1)))
+			}
+		}
+		emit("mst "+strings.Join(ops, " "), true)
+	}
 	for i := 0; i < p.pick(150, 3000); i++ {
 		ops := []string{}
 		for j := 0; j < 3+r.Intn(4); j++ {
